@@ -67,9 +67,54 @@ func (c *Ctx) dumpEvents(fd *ast.FuncDecl) (events []serEvent, problems []string
 				return d
 			}
 		}
+		if call, ok := e.(*ast.CallExpr); ok && len(call.Args) == 1 {
+			// uint64(x) of a described parameter
+			if id, ok := c.stripConv(call.Args[0]).(*ast.Ident); ok {
+				if d, ok := elem[c.objOf(id)]; ok {
+					return d
+				}
+			}
+		}
 		return "?" + types.ExprString(e)
 	}
+	depth := 0
 	var walk func(list []ast.Stmt, elem map[types.Object]string) []serEvent
+	// inlineHelper: a call f(w, ..., x, ...) of a package function that receives the writer is
+	// analysed in place, its parameters standing for the described arguments
+	inlineHelper := func(call *ast.CallExpr, elem map[types.Object]string) ([]serEvent, bool) {
+		fn, ok := c.callee(call).(*types.Func)
+		if !ok || fn.Pkg() == nil || fn.Pkg().Path() != bclPath || depth > 2 {
+			return nil, false
+		}
+		hd := c.funcDecls[fn]
+		if hd == nil || hd.Body == nil || hd.Recv != nil {
+			return nil, false
+		}
+		passesWriter := false
+		el := map[types.Object]string{}
+		savedW := wobj
+		for i, a := range call.Args {
+			po := c.paramObj(hd, i)
+			if po == nil {
+				continue
+			}
+			if c.isObj(a, wobj) && wobj != nil {
+				passesWriter = true
+				defer func() { wobj = savedW }()
+				wobj = po
+				continue
+			}
+			el[po] = describe(a, elem)
+		}
+		if !passesWriter {
+			wobj = savedW
+			return nil, false
+		}
+		depth++
+		ev := walk(hd.Body.List, el)
+		depth--
+		return ev, true
+	}
 	walk = func(list []ast.Stmt, elem map[types.Object]string) []serEvent {
 		var out []serEvent
 		for _, s := range list {
@@ -97,6 +142,9 @@ func (c *Ctx) dumpEvents(fd *ast.FuncDecl) (events []serEvent, problems []string
 				}
 				sel, ok := call.Fun.(*ast.SelectorExpr)
 				if !ok || !c.isObj(sel.X, wobj) {
+					if ev, ok := inlineHelper(call, elem); ok {
+						out = append(out, ev...)
+					}
 					continue
 				}
 				if sel.Sel.Name != "Write" || len(call.Args) != 1 {
@@ -168,7 +216,9 @@ func (c *Ctx) dumpEvents(fd *ast.FuncDecl) (events []serEvent, problems []string
 						}
 					}
 				}
-				problems = append(problems, c.pos(s.Pos())+": Dump returns something other than w.Flush()")
+				if depth == 0 {
+					problems = append(problems, c.pos(s.Pos())+": Dump returns something other than w.Flush()")
+				}
 			case *ast.IfStmt:
 				// only the string-buffer growth is allowed: checked by the buffer rule; it must not write
 				ast.Inspect(s, func(n ast.Node) bool {
@@ -652,51 +702,77 @@ func ruleUvarintLen(c *Ctx, r *Report, rule string) {
 	}
 	param := c.paramObj(fd, 0)
 	var rows []string
-	ok := len(fd.Body.List) == 1
-	if ok {
+	ok := true
+	resultOf := func(e ast.Expr) string {
+		if k, isC := c.intConst(e); isC {
+			return fmt.Sprint(k)
+		}
+		if be, isB := c.stripConv(e).(*ast.BinaryExpr); isB && be.Op == token.SUB && c.isObj(be.X, param) {
+			if k, isC := c.intConst(be.Y); isC {
+				return fmt.Sprintf("b0-%d", k)
+			}
+		}
+		return "?"
+	}
+	addCase := func(cond ast.Expr, body []ast.Stmt) {
+		if len(body) != 1 {
+			ok = false
+			return
+		}
+		rs, isR := body[0].(*ast.ReturnStmt)
+		if !isR || len(rs.Results) != 1 {
+			ok = false
+			return
+		}
+		res := resultOf(rs.Results[0])
+		if cond == nil {
+			rows = append(rows, "else:"+res)
+			return
+		}
+		atoms, pure := c.nnf(cond, true, nil).conjuncts()
+		if !pure || len(atoms) != 1 {
+			ok = false
+			return
+		}
+		b, isB := c.boundOf(atoms[0])
+		if !isB || !c.isObj(b.X, param) || b.Hi == nil || b.Lo != nil {
+			ok = false
+			return
+		}
+		rows = append(rows, fmt.Sprintf("<=%d:%s", *b.Hi, res))
+	}
+	switch {
+	case len(fd.Body.List) == 1:
 		sw, isS := fd.Body.List[0].(*ast.SwitchStmt)
-		ok = isS && sw.Tag == nil
-		if ok {
-			for _, a := range c.switchArms(sw) {
-				if len(a.Body) != 1 {
-					ok = false
-					continue
-				}
-				rs, isR := a.Body[0].(*ast.ReturnStmt)
-				if !isR || len(rs.Results) != 1 {
-					ok = false
-					continue
-				}
-				res := "?"
-				if k, isC := c.intConst(rs.Results[0]); isC {
-					res = fmt.Sprint(k)
-				} else if be, isB := stripParens(rs.Results[0]).(*ast.BinaryExpr); isB && be.Op == token.SUB && c.isObj(be.X, param) {
-					if k, isC := c.intConst(be.Y); isC {
-						res = fmt.Sprintf("b0-%d", k)
-					}
-				}
-				if a.Default {
-					rows = append(rows, "else:"+res)
-					continue
-				}
-				be, isB := stripParens(a.Exprs[0]).(*ast.BinaryExpr)
-				if !isB || !c.isObj(be.X, param) {
-					ok = false
-					continue
-				}
-				k, isC := c.intConst(be.Y)
-				if !isC {
-					ok = false
-					continue
-				}
-				switch be.Op {
-				case token.LEQ:
-					rows = append(rows, fmt.Sprintf("<=%d:%s", k, res))
-				case token.LSS:
-					rows = append(rows, fmt.Sprintf("<=%d:%s", k-1, res))
-				default:
+		if !isS || sw.Tag != nil {
+			ok = false
+			break
+		}
+		for _, a := range c.switchArms(sw) {
+			if a.Default {
+				addCase(nil, a.Body)
+			} else if len(a.Exprs) == 1 {
+				addCase(a.Exprs[0], a.Body)
+			} else {
+				ok = false
+			}
+		}
+	default:
+		// if b0 <= 240 { return 1 }; if b0 <= 248 { return 2 }; return int(b0) - 246
+		for i, s := range fd.Body.List {
+			switch s := s.(type) {
+			case *ast.IfStmt:
+				if s.Else != nil || s.Init != nil {
 					ok = false
 				}
+				addCase(s.Cond, s.Body.List)
+			case *ast.ReturnStmt:
+				if i != len(fd.Body.List)-1 {
+					ok = false
+				}
+				addCase(nil, []ast.Stmt{s})
+			default:
+				ok = false
 			}
 		}
 	}
@@ -817,26 +893,41 @@ func stmtListOf(pm map[ast.Node]ast.Node, s ast.Stmt) ([]ast.Stmt, int) {
 	return nil, -1
 }
 
-// isTrailingProbe: `_, err = r.Read(b[:1]); if err == io.EOF { return nil }; return err` as the tail of Load.
+// isTrailingProbe: the tail of Load is `_, err = r.Read(b[:1])` followed by either
+//
+//	if err == io.EOF { return nil }; return err      or      if err != io.EOF { return err }; return nil
 func (c *Ctx) isTrailingProbe(fd *ast.FuncDecl, call *ast.CallExpr) bool {
 	n := len(fd.Body.List)
 	if n < 3 {
 		return false
 	}
 	as, ok := fd.Body.List[n-3].(*ast.AssignStmt)
-	if !ok || len(as.Rhs) != 1 || as.Rhs[0] != ast.Expr(call) {
+	if !ok || len(as.Rhs) != 1 || as.Rhs[0] != ast.Expr(call) || len(as.Lhs) != 2 {
 		return false
 	}
+	errObj := c.objOfExpr(as.Lhs[1])
 	ifs, ok := fd.Body.List[n-2].(*ast.IfStmt)
-	if !ok {
+	rs, ok2 := fd.Body.List[n-1].(*ast.ReturnStmt)
+	if !ok || !ok2 || len(rs.Results) != 1 || ifs.Else != nil || len(ifs.Body.List) != 1 {
 		return false
 	}
-	be, ok := stripParens(ifs.Cond).(*ast.BinaryExpr)
-	if !ok || be.Op != token.EQL || qname(c.objOf(be.Y)) != "io.EOF" {
+	inner, ok := ifs.Body.List[0].(*ast.ReturnStmt)
+	if !ok || len(inner.Results) != 1 {
 		return false
 	}
-	rs, ok := fd.Body.List[n-1].(*ast.ReturnStmt)
-	return ok && len(rs.Results) == 1
+	atoms, pure := c.nnf(ifs.Cond, true, nil).conjuncts()
+	if !pure || len(atoms) != 1 {
+		return false
+	}
+	be, ok := atoms[0].E.(*ast.BinaryExpr)
+	if !ok || !c.isObj(be.X, errObj) || qname(c.objOf(be.Y)) != "io.EOF" {
+		return false
+	}
+	isEOF := (be.Op == token.EQL) == atoms[0].Pos
+	if isEOF {
+		return isNilIdent(inner.Results[0]) && c.isObj(rs.Results[0], errObj)
+	}
+	return c.isObj(inner.Results[0], errObj) && isNilIdent(rs.Results[0])
 }
 
 // ruleNoEOFTolerance: end of input is accepted at exactly one place.
@@ -860,7 +951,20 @@ func ruleNoEOFTolerance(c *Ctx, r *Report, rule string) {
 			return true
 		})
 	}
-	allowed := map[string]bool{"Prog.Load": true, "unexpectedEOF": true, "ParseFile$go#1": true, "ParseFile": true}
+	allowed := map[string]bool{"Prog.Load": true, "unexpectedEOF": true}
+	// the streaming reader of ParseFile legitimately ends at io.EOF: whatever function holds its read loop
+	if m, err := c.parseFileModel(); err == nil && m.Reader != nil {
+		for _, it := range c.sortedDecls() {
+			if it.fd.Body != nil && it.fd.Body.Pos() <= m.Reader.Body.Pos() && m.Reader.Body.End() <= it.fd.Body.End() {
+				allowed[qname(it.obj)] = true
+			}
+		}
+		for _, f := range c.allFuncs() {
+			if lit, ok := f.Syntax().(*ast.FuncLit); ok && lit.Body == m.Reader.Body {
+				allowed[ssaFuncName(f)] = true
+			}
+		}
+	}
 	for _, n := range sortedKeys(sites) {
 		if !allowed[n] || (n == "Prog.Load" && sites[n] != 1) {
 			r.bad(rule, "eof-compare/"+n, fmt.Sprintf("%s compares an error with io.EOF (%d times): end of input inside the bytecode stream must be an error", n, sites[n]), "")
@@ -889,12 +993,10 @@ func ruleNoEOFTolerance(c *Ctx, r *Report, rule string) {
 		return true
 	})
 	lastIsProbe := false
-	if n := len(fd.Body.List); n >= 2 {
-		if ifs, ok := fd.Body.List[n-2].(*ast.IfStmt); ok {
-			for _, s := range ifs.Body.List {
-				if rs, ok := s.(*ast.ReturnStmt); ok && len(rs.Results) == 1 && isNilIdent(rs.Results[0]) {
-					lastIsProbe = true
-				}
+	if n := len(fd.Body.List); n >= 3 {
+		if as, ok := fd.Body.List[n-3].(*ast.AssignStmt); ok && len(as.Rhs) == 1 {
+			if call, ok := as.Rhs[0].(*ast.CallExpr); ok {
+				lastIsProbe = c.isTrailingProbe(fd, call)
 			}
 		}
 	}
